@@ -2,6 +2,8 @@
 package conf
 
 import (
+	"bytes"
+	"encoding/binary"
 	"net/url"
 	"regexp"
 	"sort"
@@ -11,6 +13,7 @@ import (
 	"time"
 	"unicode/utf8"
 
+	"github.com/aperturerobotics/bifrost/crypto"
 	"github.com/aperturerobotics/bifrost/peer"
 	"github.com/aperturerobotics/bifrost/protocol"
 	"github.com/aperturerobotics/bifrost/tptaddr"
@@ -35,9 +38,94 @@ type c38Case struct {
 	List    []string   `json:"list"`
 	Allow   bool       `json:"allow_empty"`
 	Entries []c38Entry `json:"entries"`
+	// Raw is, for the peerid parser, the byte string whose base58 text is S
+	Raw []byte `json:"raw,omitempty"`
 }
 
-var c38Parsers = []string{"duration", "timestamp", "timestamp", "url", "regexp", "protocol", "tptaddr", "peerids", "addrmap", "addrmap", "any"}
+// varintish draws the bytes of a varint field: the canonical encoding of want, or one of the shapes a
+// hostile or damaged text can carry (overflowing, unterminated, non-minimal, huge)
+func varintish(t *rapid.T, label string, want uint64) []byte {
+	switch rapid.SampledFrom([]string{"want", "want", "want", "small", "overflow", "long", "unterminated", "nonminimal", "max", "huge"}).Draw(t, label) {
+	case "small":
+		return binary.AppendUvarint(nil, uint64(rapid.IntRange(0, 300).Draw(t, label+"-v")))
+	case "overflow":
+		// nine continuation bytes and a tenth byte above 1
+		b := bytes.Repeat([]byte{0x80}, 9)
+		for i := range b {
+			b[i] |= byte(rapid.IntRange(0, 127).Draw(t, label+"-c"))
+		}
+		return append(b, byte(rapid.IntRange(2, 127).Draw(t, label+"-last")))
+	case "long":
+		// ten or more continuation bytes
+		b := bytes.Repeat([]byte{0x80}, rapid.IntRange(10, 14).Draw(t, label+"-n"))
+		return append(b, byte(rapid.IntRange(0, 1).Draw(t, label+"-last")))
+	case "unterminated":
+		return bytes.Repeat([]byte{0x81}, rapid.IntRange(1, 9).Draw(t, label+"-n"))
+	case "nonminimal":
+		return append(bytes.Repeat([]byte{0x80}, rapid.IntRange(1, 8).Draw(t, label+"-n")), 0)
+	case "max":
+		return binary.AppendUvarint(nil, ^uint64(0))
+	case "huge":
+		return binary.AppendUvarint(nil, rapid.Uint64().Draw(t, label+"-v"))
+	}
+	return binary.AppendUvarint(nil, want)
+}
+
+func genMultihashish(t *rapid.T) []byte {
+	var digest []byte
+	switch rapid.IntRange(0, 3).Draw(t, "digest") {
+	case 0:
+		digest, _ = crypto.MarshalPublicKey(gen.Key(rapid.IntRange(0, 3).Draw(t, "key")).GetPublic())
+	case 1:
+		digest = rapid.SliceOfN(rapid.Byte(), 0, 40).Draw(t, "bytes")
+	case 2:
+		digest = nil
+	case 3:
+		digest = gen.DetBytes("c38", rapid.IntRange(100, 400).Draw(t, "len"))
+	}
+	var b []byte
+	b = append(b, varintish(t, "code", 0)...)
+	b = append(b, varintish(t, "dlen", uint64(len(digest)))...)
+	b = append(b, digest...)
+	if rapid.IntRange(0, 5).Draw(t, "cut") == 0 && len(b) > 0 {
+		b = b[:rapid.IntRange(0, len(b)-1).Draw(t, "cutat")]
+	}
+	return b
+}
+
+// refUvarint is an independent reading of the varint rules: at most ten bytes, the tenth at most 1
+func refUvarint(b []byte) (v uint64, n int, ok bool) {
+	for i := 0; i < len(b); i++ {
+		if i == 10 || (i == 9 && b[i] > 1) {
+			return 0, 0, false
+		}
+		v |= uint64(b[i]&0x7f) << (7 * uint(i))
+		if b[i] < 0x80 {
+			return v, i + 1, true
+		}
+	}
+	return 0, 0, false
+}
+
+// refMultihash says whether b is varint(code) varint(len) digest with exactly len digest bytes
+func refMultihash(b []byte) (code uint64, digest []byte, ok bool) {
+	code, n, ok := refUvarint(b)
+	if !ok {
+		return 0, nil, false
+	}
+	b = b[n:]
+	dl, n, ok := refUvarint(b)
+	if !ok {
+		return 0, nil, false
+	}
+	b = b[n:]
+	if uint64(len(b)) != dl {
+		return 0, nil, false
+	}
+	return code, b, true
+}
+
+var c38Parsers = []string{"peerid", "peerid", "duration", "timestamp", "timestamp", "url", "regexp", "protocol", "tptaddr", "peerids", "addrmap", "addrmap", "any"}
 
 var durGen = rapid.OneOf(
 	rapid.StringMatching(`-?[0-9]{1,4}(\.[0-9]{1,3})?(ns|us|ms|s|m|h)`),
@@ -73,6 +161,9 @@ func genC38(t *rapid.T) c38Case {
 		c.S = rapid.OneOf(rapid.StringMatching(`[a-c|]{0,6}`), anyStr).Draw(t, "s")
 	case "peerids":
 		c.List = rapid.SliceOfN(rapid.SampledFrom([]string{"", gen.PeerID(0).String(), gen.PeerID(1).String(), " " + gen.PeerID(0).String() + " ", "xyz", "0OIl", gen.PeerID(2).String()[:20]}), 0, 5).Draw(t, "list")
+	case "peerid":
+		c.Raw = genMultihashish(t)
+		c.S = peer.ID(c.Raw).String()
 	case "addrmap":
 		n := rapid.IntRange(0, 8).Draw(t, "n")
 		for i := 0; i < n; i++ {
@@ -94,7 +185,7 @@ func sameDurErr(a, b error) bool { return (a == nil) == (b == nil) }
 
 func checkC38(c c38Case) (o vstat.Outcome) {
 	o.Classes = append(o.Classes, "parser:"+c.Parser)
-	o.NonTrivial = c.S != "" || len(c.List) > 0 || len(c.Entries) > 0
+	o.NonTrivial = c.S != "" || len(c.List) > 0 || len(c.Entries) > 0 || len(c.Raw) > 0
 	o.V = vstat.Guard("confparse/"+c.Parser, func() *vstat.Violation {
 		switch c.Parser {
 		case "duration":
@@ -272,6 +363,64 @@ func checkC38(c c38Case) (o vstat.Outcome) {
 				t2, a2, err2 := tptaddr.ParseTptAddr(tid + "|" + addr)
 				if err2 != nil || t2 != tid || a2 != addr {
 					return vstat.Viol("tptaddr-roundtrip", "ParseTptAddr(format(%q,%q)) differs", tid, addr)
+				}
+			}
+		case "peerid":
+			code, digest, refOK := refMultihash(c.Raw)
+			if refOK {
+				o.Classes = append(o.Classes, "peerid-wellformed")
+			} else {
+				o.Classes = append(o.Classes, "peerid-malformed")
+			}
+			id, err := confparse.ParsePeerID(c.S)
+			if c.S == "" {
+				if err != nil || id != "" {
+					return vstat.Viol("peerid-empty", "ParsePeerID(\"\") = %q, %v", id, err)
+				}
+				return nil
+			}
+			if (err == nil) != refOK {
+				return vstat.Viol("peerid-differential", "ParsePeerID(%q) (bytes %x) err=%v, a reference multihash reading says wellformed=%v", c.S, c.Raw, err, refOK)
+			}
+			if verr := confparse.ValidatePeerID(c.S); (verr == nil) != refOK {
+				return vstat.Viol("peerid-differential", "ValidatePeerID(%q) err=%v, reference wellformed=%v", c.S, verr, refOK)
+			}
+			if _, lerr := confparse.ParsePeerIDs([]string{c.S}, false); (lerr == nil) != refOK {
+				return vstat.Viol("peerid-differential", "ParsePeerIDs([%q]) err=%v, reference wellformed=%v", c.S, lerr, refOK)
+			}
+			if _, lerr := confparse.ParsePeerIDsUnique([]string{" " + c.S + " "}, false); (lerr == nil) != refOK {
+				return vstat.Viol("peerid-differential", "ParsePeerIDsUnique([%q]) err=%v, reference wellformed=%v", c.S, lerr, refOK)
+			}
+			p, perr := confparse.ParsePeer("", "", c.S)
+			_ = p
+			_ = perr
+			if id2, berr := peer.IDFromBytes(c.Raw); (berr == nil) != refOK || (berr == nil && string(id2) != string(c.Raw)) {
+				return vstat.Viol("peerid-differential", "IDFromBytes(%x) = %x, %v, reference wellformed=%v", c.Raw, []byte(id2), berr, refOK)
+			}
+			// the key embedded in any byte string is extracted or refused, never a panic
+			pk, kerr := peer.ID(c.Raw).ExtractPublicKey()
+			if !refOK && kerr == nil {
+				return vstat.Viol("peerid-key-from-malformed", "ExtractPublicKey on malformed bytes %x returned a key", c.Raw)
+			}
+			if err == nil {
+				if string(id) != string(c.Raw) {
+					return vstat.Viol("peerid-roundtrip", "ParsePeerID(%q) = %x, the text encodes %x", c.S, []byte(id), c.Raw)
+				}
+				if id.String() != c.S {
+					return vstat.Viol("peerid-roundtrip", "format(parse(%q)) = %q", c.S, id.String())
+				}
+				if kerr == nil {
+					o.Classes = append(o.Classes, "peerid-with-key")
+					if code != 0 {
+						return vstat.Viol("peerid-key-non-identity", "ExtractPublicKey returned a key for hash code %d", code)
+					}
+					if rk, rerr := crypto.UnmarshalPublicKey(digest); rerr != nil || !rk.Equals(pk) {
+						return vstat.Viol("peerid-key", "ExtractPublicKey differs from the key in the digest")
+					}
+					if pid2, _ := peer.IDFromPublicKey(pk); pid2 != id {
+						// a non-minimal but well-formed encoding of the same key is a different text; only count it
+						o.Classes = append(o.Classes, "peerid-noncanonical")
+					}
 				}
 			}
 		case "peerids":
